@@ -21,9 +21,13 @@ FromString(w, oc, dis, oo) == last' = [op |-> "interpret", z |-> cur, w |-> w, o
 BagCands(z, w) == {c \in OffCands(z, w) : c.k # "z" /\ c.o % 60 = 0}
 FromBag(w, oc, dis, oo) == last' = [op |-> "bag", z |-> cur, w |-> w, oc |-> oc, dis |-> dis, oo |-> oo,
                                     out |-> InterpretBag(cur, w, oc.k, oc.o, dis, oo)] /\ UNCHANGED cur
+Vias == {"direct", "now", "instant", "rezone", "string"}
+View(t, via) == last' = [op |-> "views", z |-> cur, t |-> t, via |-> via,
+                         out |-> IF via = "string" THEN (LET r == StringTrip(cur, t) IN IF r.kind = "ok" THEN Ok(Views(cur, r.val)) ELSE r) ELSE Ok(Views(cur, t))] /\ UNCHANGED cur
 Next == /\ (OneStep => last = None)
         /\ \/ \E w \in Walls, dis \in Diss : FromLocal(w, dis)
            \/ \E t \in Instants : ToWall(t)
+           \/ \E t \in Instants, via \in Vias : View(t, via)
            \/ \E w \in IWalls, dis \in {"compatible", "reject"}, oo \in OffOpts : \E oc \in OffCands(cur, w) : FromString(w, oc, dis, oo)
            \/ \E w \in IWalls, dis \in {"compatible", "later"}, oo \in OffOpts : \E oc \in BagCands(cur, w) : FromBag(w, oc, dis, oo)
 Spec == Init /\ [][Next]_vars
@@ -51,4 +55,13 @@ InterpretLaw == last.op = "interpret" =>
   /\ (last.oc.k = "offset" /\ last.oo = "reject" /\ last.out.kind = "ok" =>
         Wall(last.z, last.out.val) = last.w /\ (last.w - last.out.val = last.oc.o \/ RoundToMinute(last.w - last.out.val) = last.oc.o))
   /\ (last.oc.k = "offset" /\ last.oo = "prefer" /\ (\E p \in PossibleSet(last.z, last.w) : last.w - p = last.oc.o) => last.out = Ok(last.w - last.oc.o))
+\* every view of an instant is the same instant read through the offset in force; date and time split the wall reading
+ViewLaw == last.op = "views" /\ last.via # "string" =>
+  LET v == last.out.val IN /\ v.t = last.t /\ v.w = v.t + v.off /\ v.off = OffsetAt(last.z, last.t)
+                           /\ v.day * 86400 + v.sod = v.w /\ v.sod \in 0..86399
+\* a printed zoned date-time reads back as the same instant (also inside a repeated hour: the offset tells the two apart) unless the
+\* two candidates' offsets agree at minute precision
+StringTripLaw == last.op = "views" /\ last.via = "string" =>
+  LET P == Possible(last.z, Wall(last.z, last.t))
+  IN (\A i, j \in 1..Len(P) : i # j => RoundToMinute(Wall(last.z, last.t) - P[i]) # RoundToMinute(Wall(last.z, last.t) - P[j])) => last.out = Ok(Views(last.z, last.t))
 =============================================================================
